@@ -218,6 +218,9 @@ def main(argv):
         run.violation("corr", "pdl-driver does not build: " + out[-500:], {"stage": "build"}, found_input=False)
         return run.finish(proof)
     drv, mdl = C.driver(), C.pdlv()
+    # the model parser runs the grammar translated from /repo's parser.rs on this run; the theorems and the
+    # tree-to-AST model were written against the transcribed copy, so the two are compared rule by rule
+    same_grammar, ginfo = C.use_translated_grammar(mdl, run)
     n = 40 if a.tier == "quick" else 400
     opts = GD.Opts(greedy_structs=True, copy_parents=False, array_modifier=True)
 
@@ -307,6 +310,12 @@ def main(argv):
                           {"offset": off, "line_starts": ls, "corr": "corr:C12/srcloc (theorem Pdlv.Syntax.srcloc_correct)"}, found_input=False)
     drv.kill()
     mdl.kill()
+    if ginfo.get("translated") and not same_grammar:
+        # the comparisons above ran the model on the NEW grammar: whatever they report comes with its input; the
+        # broken translation validation is reported on its own when they found nothing
+        run.violation("corr", "the grammar of parser.rs differs from the transcribed grammar in rules %s" % ginfo.get("differing_rules"),
+                      {"corr": "translation:C12/grammar (Pdlv.Syntax.grammar)", "differing_rules": ginfo.get("differing_rules")},
+                      found_input=False)
     return run.finish(proof, extra_cov={
         "rule": "generated descriptions; their re-renderings with randomized concrete syntax; the printed AST; near-miss "
                 "texts (deleted/inserted characters, glued keywords, keyword followed by a comment, unterminated comment/"
